@@ -37,5 +37,7 @@ with open(os.path.join(HERE, 'seeded', 'README.md'), 'w') as f:
         f.write('| %s | %s | %s | %s | %s |\n' % r)
     n = len(rows)
     c = sum(1 for r in rows if r[2].startswith('caught'))
-    f.write('\n%d of %d seeded changes are reported as VIOLATION by the check of the property they were written against.\n' % (c, n))
+    f.write('\n%d of %d seeded changes are reported as VIOLATION by the check of the property they were written against '
+            '(after the strengthening recorded in each meta.json; first answers: see DESIGN.md 7). C20-mut5 is left '
+            'standing on purpose: the statement does not say when the environment variables are read.\n' % (c, n))
 print('rows', len(rows))
